@@ -490,9 +490,14 @@ RE_ATOMS = ['a', 'b', 'Z', '0', ' ', '.', r'\d', r'\w', r'\s', r'\D', r'\W', r'\
 RE_QUANT = ['', '', '', '*', '+', '?', '*?', '+?', '??', '{2}', '{2,}', '{,3}', '{2,5}', '{2,5}?']
 
 
+RE_CLASS_ITEMS = ['a', 'z', 'A', '0', '9', '_', 'a-z', '0-9', 'A-F', r'\-', r'\]', r'\^', r'\\', r'\[', r'\d', r'\w', r'\s', r'\n', r'\t', '.', '-', '^', ' ', '$', '*', '(', ')', '|', "'", '"', 'é', r'\x41', r'\.']
+
+
 def st_regex():
     from hypothesis import strategies as st
-    atom = st.sampled_from(RE_ATOMS)
+    # character classes: members, ranges and escaped specials in every position (an escaped hyphen between two members is a member, not a range)
+    charclass = st.tuples(st.sampled_from(['', '', '^']), st.lists(st.sampled_from(RE_CLASS_ITEMS), min_size=1, max_size=4)).map(lambda t: '[' + t[0] + ''.join(t[1]) + ']')
+    atom = st.one_of(st.sampled_from(RE_ATOMS), st.sampled_from(RE_ATOMS), charclass)
 
     def group(children):
         inner = st.lists(children, min_size=1, max_size=3).map(''.join)
@@ -504,7 +509,7 @@ def st_regex():
             inner.map(lambda x: '(?i:' + x + ')'), inner.map(lambda x: '(?s)' + x), st.tuples(children, st.sampled_from(RE_QUANT)).map(lambda t: '(?:' + t[0] + ')' + t[1]))
     piece = st.tuples(atom, st.sampled_from(RE_QUANT)).map(lambda t: t[0] + t[1] if t[0] not in ('^', '$', r'\b', r'\B', r'\A', r'\Z') else t[0])
     pat = st.recursive(piece, group, max_leaves=8)
-    flags = st.sampled_from(['', '', '', ', re.I', ', re.I | re.M', ', flags=re.S', ', re.VERBOSE', ', 0'])
+    flags = st.sampled_from(['', '', '', '', ', re.I', ', re.I | re.M', ', flags=re.S', ', re.VERBOSE', ', 0', ', **opts', ', *a', ', re.I, **kw', ', flags=re.I, **kw', ', *a, **kw'])
     return st.tuples(st.lists(pat, min_size=1, max_size=4).map(''.join), flags, st.booleans(), st.booleans())
 
 
@@ -541,6 +546,9 @@ def check_regex(pat: str, flags: str, raw: bool, as_bytes: bool) -> Tuple[List[T
     # re.compile(pattern, flags=0): the arguments are bound to this signature and shown positionally
     rest_src = [exprnorm.norm_dump(a) for a in src_tree.args[1:]] + [exprnorm.norm_dump(k.value) for k in src_tree.keywords if k.arg == 'flags']
     rest_got = [exprnorm.norm_dump(a) for a in tree.args[1:]] + [exprnorm.norm_dump(k.value) for k in tree.keywords if k.arg == 'flags']
+    # (arguments passed with ** cannot be bound to the signature: they must still be shown)
+    rest_src += ['**' + exprnorm.norm_dump(k.value) for k in src_tree.keywords if k.arg is None]
+    rest_got += ['**' + exprnorm.norm_dump(k.value) for k in tree.keywords if k.arg is None]
     if rest_src != rest_got:
         out.append(('regex:flags', 'pattern %r with arguments %r is displayed as %r' % (pat, flags, shown)))
     a0 = tree.args[0]
